@@ -114,7 +114,18 @@ class QuerySpec(FnSpec):
         return Collected() if name == "ret" else None
 
     def setup(self, cx):
-        me = SObj("MetadorContainerTOC", name="self")
+        class TocObj(SObj):
+            """the TOC object may carry any private state from earlier calls (e.g. something cached): unknown private attributes
+            read as 'None or some stale node'; the contract demands the root obtained by THIS call"""
+
+            def py_getattr(s, cx2, n):
+                if n in s.fields or not n.startswith("_") or n.startswith("__"):
+                    return SObj.py_getattr(s, cx2, n)
+                from pyvc.values import SMaybe
+
+                return SMaybe(z3.Bool(f"earlier_state{n}_is_None"), NodeVal(z3.Const(f"node_remembered_in{n}", Node)))
+
+        me = TocObj("MetadorContainerTOC", name="self")
         me.fields["_container"] = ContainerStub()
         given = cx.choose(2) == 1
         node = NodeVal(z3.Const("given_start_node", Node)) if given else None
@@ -128,7 +139,9 @@ class QuerySpec(FnSpec):
         return {"ValueError": a.name.t == z3.StringVal("")}
 
     def ensures(self, cx, a, res):
-        ys = list(getattr(cx, "yielded", []))
+        from pyvc.values import SMaybe
+
+        ys = [(k, v.val if isinstance(v, SMaybe) and isinstance(v.val, NodeVal) else v) for k, v in getattr(cx, "yielded", [])]  # (a node that was tested for truth on the way)
         start, nm, ver = a.start, a.name.t, a.ver.t
         m0 = MATCH(start, nm, ver)
         # expected shape: [start if it matches] ++ (if start is a group) [visited nodes that match, in visit order]
